@@ -97,11 +97,15 @@ def campaign_c13(rep, tier, seed):
                     # DEHB: one failure, and as many failures as the first rung has slots (known finding F17)
                     "de31": S.base(SysName="de31", NT=6, DE=True, Vals={0, 1}),
                     "de31_3f": S.base(SysName="de31", NT=7, DE=True, Vals={0, 1}, MaxFaults=3, MaxRun=3),
-                    "de321_2f": S.base(SysName="de321", NT=5, DE=True, Vals={0, 1}, MaxFaults=2, MaxRun=3)}.items():
+                    "de321_2f": S.base(SysName="de321", NT=5, DE=True, Vals={0, 1}, MaxFaults=2, MaxRun=3),
+                    # failures in later brackets (known finding F23: a failed slot among the mutation parents); traces only
+                    "de321_8t_2f": S.base(SysName="de321", NT=8, DE=True, Vals={0, 1}, MaxFaults=2, MaxRun=2)}.items():
         # (the model reproduces F17 as well: NextJobNeverBlocks is judged on the traces, where it is matched as known finding)
-        r = S.run_mc(c, [i for i in S.INV if not (c.get("DE") and c.get("MaxFaults", 1) > 1 and i == "NextJobNeverBlocks")])
-        rep.model(f"SyncHB_MC[{name}]", r)
-        g = gen(c, 14 if tier == "quick" else 20, 25 if tier == "quick" else 300, seed * 171 + len(name))
+        if c["NT"] < 8:
+            r = S.run_mc(c, [i for i in S.INV if not (c.get("DE") and c.get("MaxFaults", 1) > 1 and i == "NextJobNeverBlocks")])
+            rep.model(f"SyncHB_MC[{name}]", r)
+        glen = (14 if tier == "quick" else 20) if c["NT"] < 8 else 30
+        g = gen(c, glen, (25 if tier == "quick" else 300) * (4 if c["NT"] >= 8 else 1), seed * 171 + len(name))
         cnt = drive_validate(rep, g.gen, c, FLAGS_C13, f"synchb-failures:{name}", seed * 1000 + 5, pid="C13")
         for k, v in cnt.items():
             total[k] = total.get(k, 0) + v
